@@ -1,0 +1,94 @@
+//go:build verif
+
+package tls
+
+import (
+	"github.com/zmap/zcrypto/x509"
+)
+
+// Verification hooks for property C28 (handshake log vs wire). Add-only; built with -tags verif.
+
+// ZVC28ClientHelloLog runs the real ClientHello parser and log builder on one handshake message.
+func ZVC28ClientHelloLog(msg []byte) (*ClientHello, bool) {
+	m := new(clientHelloMsg)
+	if !m.unmarshal(msg) {
+		return nil, false
+	}
+	return m.MakeLog(), true
+}
+
+// ZVC28ServerHelloLog runs the real ServerHello parser and log builder on one handshake message.
+func ZVC28ServerHelloLog(msg []byte) (*ServerHello, bool) {
+	m := new(serverHelloMsg)
+	if !m.unmarshal(msg) {
+		return nil, false
+	}
+	return m.MakeLog(), true
+}
+
+// ZVC28CertificateLog runs the real (TLS <= 1.2) Certificate parser and log builder.
+func ZVC28CertificateLog(msg []byte) (*Certificates, bool) {
+	m := new(certificateMsg)
+	if !m.unmarshal(msg) {
+		return nil, false
+	}
+	return m.MakeLog(), true
+}
+
+// ZVC28FinishedLog runs the real Finished parser and log builder.
+func ZVC28FinishedLog(msg []byte) (*Finished, bool) {
+	m := new(finishedMsg)
+	if !m.unmarshal(msg) {
+		return nil, false
+	}
+	return m.MakeLog(), true
+}
+
+// ZVC28SKXLog feeds one ServerKeyExchange handshake message to the real client-side key agreement
+// (kex: "ecdhe-rsa", "ecdhe-ecdsa", "dhe-rsa") and returns the log record built by the real MakeLog.
+// parsed=false: the message was rejected before the signature was checked (no log record exists).
+// For ECDHE a record is returned even when only the signature check failed (verifyErr != "").
+// DHE runs with InsecureSkipVerify (the scanner configuration), where the record is always built once the
+// parameters parse.
+func ZVC28SKXLog(kex string, vers uint16, clientRandom, serverRandom []byte, sigAlgs []uint16, certDER []byte, msg []byte) (log *ServerKeyExchange, parsed bool, verifyErr string) {
+	var ka keyAgreement
+	switch kex {
+	case "ecdhe-rsa":
+		ka = ecdheRSAKA(vers)
+	case "ecdhe-ecdsa":
+		ka = ecdheECDSAKA(vers)
+	case "dhe-rsa":
+		ka = dheRSAKA(vers)
+	default:
+		return nil, false, "bad kex"
+	}
+	cert, err := x509.ParseCertificate(certDER)
+	if err != nil {
+		return nil, false, "bad cert"
+	}
+	skx := new(serverKeyExchangeMsg)
+	if !skx.unmarshal(msg) {
+		return nil, false, ""
+	}
+	ch := &clientHelloMsg{random: clientRandom}
+	for _, s := range sigAlgs {
+		ch.supportedSignatureAlgorithms = append(ch.supportedSignatureAlgorithms, SignatureScheme(s))
+	}
+	sh := &serverHelloMsg{random: serverRandom, vers: vers}
+	cfg := &Config{InsecureSkipVerify: kex == "dhe-rsa"}
+	err = ka.processServerKeyExchange(cfg, ch, sh, cert, skx)
+	var verr error
+	switch k := ka.(type) {
+	case *ecdheKeyAgreement:
+		verr = k.verifyError
+	case *dheKeyAgreement:
+		verr = k.verifyError
+	}
+	if err != nil && verr == nil {
+		return nil, false, ""
+	}
+	if verr != nil {
+		verifyErr = verr.Error()
+	}
+	return skx.MakeLog(ka), true, verifyErr
+}
